@@ -3,8 +3,9 @@
 // model action, the projection of the implementation state the specification talks about.
 //
 // Modes:
-//   -mode sched : each scenario is a sequence of model actions; gated hook points force the order
-//   -mode free  : free-running stress (no gates): producers, a slow broker and Close at a random instant
+//
+//	-mode sched : each scenario is a sequence of model actions; gated hook points force the order
+//	-mode free  : free-running stress (no gates): producers, a slow broker and Close at a random instant
 package main
 
 import (
